@@ -319,6 +319,7 @@ pub const REQUIRED: &[&str] = &[
     "poisoned_by_failing_calls_first",
     "long_shift_jis_string",
     "same_object_serialized_edited_serialized",
+    "key_count_around_256_4096_65536",
 ];
 
 pub fn run(cx: &mut Ctx) {
@@ -389,6 +390,24 @@ pub fn run(cx: &mut Ctx) {
             });
         }
         cp = hi + 1;
+    }
+    // ---- thresholds: key counts at and around 256 / 4096 / 65536
+    if !cfg!(miri) {
+        for (i, count) in [255usize, 256, 257, 1023, 1024, 1025, 4095, 4096, 4097, 65535, 65536, 65537].into_iter().enumerate() {
+            for unicode in [false, true] {
+                if count > 60000 && cx.a.quick() && (i + unicode as usize) % 2 == 0 {
+                    continue;
+                }
+                cx.case("key_count_thresholds", |c| {
+                    c.sit("key_count_around_256_4096_65536");
+                    let be = c.rng.bool();
+                    let entries: Vec<(String, String)> = (0..count).map(|k| (format!("MID_{:05}", k), if k % 3 == 0 { format!("m{}", k) } else { "あ".to_string() })).collect();
+                    let t = Content { unicode, be, title: "T".into(), entries };
+                    c.eval(count as u64);
+                    check(c, "key_count_thresholds", &t);
+                });
+            }
+        }
     }
     // ---- random
     let n = cx.a.n(200_000, 2_000_000);
